@@ -88,6 +88,7 @@ func checkJSONEnc(c *Ctx, prop string) {
 		c.MustTLC(TLCOpts{Module: "JsonEnc", Cfg: "JsonEnc.check", Consts: mm, ExpectViolation: true})
 	}
 	runJSONGenerators(c, prop, jeGenerators(c, prop == "C10"), prop == "C10")
+	jeScenarios(c, prop)
 	c.Set("exhaustive", true)
 	c.Set("rule", "every behaviour of JsonEnc.tla inside each listed generator bound, each replayed with 2 (quick) / 4 (thorough) seeded concretisations, one benign and the rest hostile")
 }
@@ -186,4 +187,36 @@ func (c *Ctx) simWorkers(sim string) int {
 		return 16
 	}
 	return 0
+}
+
+// jeScenarios: fixed multi-step scenarios on one encoder / logger that the single-entry programs cannot express:
+// overlapping reflected fields, and logging on after a failed sink write. Filed under the calling property.
+func jeScenarios(c *Ctx, prop string) {
+	keep := map[string]map[string]bool{
+		"C01": {"invalid-json": true, "panic": true, "entry-lost": true},
+		"C02": {"value": true, "invalid-json": true},
+		"C08": {"value": true, "invalid-json": true, "panic": true},
+		"C10": {"invalid-json": true, "panic": true, "entry-lost": true, "value": true, "sink:not-reported": true},
+	}[prop]
+	for rep := 0; rep < 3; rep++ {
+		fs := replayReflectOverlap()
+		if prop == "C01" || prop == "C10" {
+			fs = append(fs, replayAfterSinkError()...)
+		}
+		for _, f := range fs {
+			if f.Key == "harness" {
+				c.Inconclusive("%s", f.What)
+			} else if keep[f.Key] {
+				k := prop + "/" + f.Key
+				if prop == "C02" && f.Key == "invalid-json" {
+					k = "C02/undecodable"
+				}
+				if prop == "C08" {
+					k = "C08/pooled-object-observable"
+				}
+				c.Violation(k, f.What, map[string]interface{}{"scenario": "reflect-overlap / after-sink-error"})
+			}
+		}
+		c.Add("traces_validated_against_impl", 2)
+	}
 }
